@@ -363,3 +363,20 @@ def run(rep, tier):
     rep.sample({'script': jobs[len(jobs) // 2][0], 'condition_answers': jobs[len(jobs) // 2][1]})
     if len(trees) < 100:
         rep.machinery.append('vacuity guard: fewer than 100 trees')
+
+
+def replay(rec):
+    """run the recorded script with the recorded condition answers and compare with the recorded reference trace"""
+    text = rec['case']['script']
+    ans = rec['case'].get('condition_answers', '')
+    if ans.startswith('('):
+        ans = ''
+    o = run_script((text, ans))
+    exp = [tuple(x[:2]) + (tuple(x[2]) if isinstance(x[2], list) else x[2],) for x in (rec.get('expected') or {}).get('trace', [])]
+    print(text)
+    print('expected trace:', exp)
+    print('observed trace:', o['trace'], 'status', o['status'], o['err'])
+    if exp and o['trace'] != exp:
+        print('VIOLATION property=C14 replay=(this file)')
+        return 1
+    return 0
